@@ -10,6 +10,7 @@ loading + replacing the workspace prefix for the relocated runs.
 import io
 import json
 import os
+import re
 import shutil
 import subprocess
 import tempfile
@@ -268,7 +269,7 @@ def compare_snapshots(kind, ref, other, ws_ref, ws_other):
         only_a = [f for f in fa if f not in other]
         only_b = [f for f in fb if f not in ref]
         f = (only_a + only_b)[0]
-        return [((ID, kind, stem_of(f), "<file-set>"), "files only in reference run %s, only in other run %s" % (only_a[:4], only_b[:4]))]
+        return [((ID, kind, "<file-set>", f.split("/")[0]), "files only in reference run %s, only in other run %s" % (only_a[:4], only_b[:4]), 0)]
     diffs = []
     # pipeline order; module_symbols is written first of all (preparation) and decides every unit id
     order = sorted(fa, key=lambda f: (OBS_DIRS.index(f.split("/")[0]), f != "frontend/module_symbols", f))
@@ -287,9 +288,12 @@ def compare_snapshots(kind, ref, other, ws_ref, ws_other):
     f, col, detail = diffs[0]
     if kind != "same-path" and f == "frontend/module_symbols" and unit_order_only(ref[f], other[f], repl):
         col = "unit-id-order"
+    # files whose difference is the same observation as the reported one (not hidden behind it)
+    fam = lambda rel: re.sub(r"_p[123](\.bundle)?$", "", stem_of(rel))      # ..._p2.bundle / ..._p3.bundle: one family
+    same = [d for d in diffs if fam(d[0]) == fam(f) and d[1] == col] if col == "<row-order>" else [diffs[0]]
     what = "%s run: %s column %s differs (%s); %d differing file(s): %s" % (
         kind, f, col, detail, len(diffs), [d[0] for d in diffs[:6]])
-    return [((ID, kind, stem_of(f), col), what)]
+    return [((ID, kind, stem_of(f), col), what, len(diffs) - len(same))]
 
 
 def stats_of(snap):
@@ -392,9 +396,11 @@ def run_case(case, col=None, only=None):
                                 kind, step["id"], hs, r.returncode, ref_rc, r.stdout[-300:].replace("\n", " | "))))
                 continue
             ds = compare_snapshots(kind, ref, snap, wsdirs["A"], ws)
-            for sig, what in ds:
+            for sig, what, hidden in ds:
                 what = "run %s (hash seed %s) vs r0: %s" % (step["id"], hs, what)
-                if sig[3] == "unit-id-order":
+                # only the first differing file is reported: when that one is an open known finding, the other
+                # differing files of this run were not examined (counted as step-over in the evidence)
+                if hidden and common.classify(ID, sig)[0] == "known":
                     info["stepover"].append(sig)
                 out.append((sig, what))
         return out, info
@@ -439,6 +445,7 @@ def record(col, case, discs, info, labels=()):
         col.stepovers["/".join(sig)] += 1
     for sig, what in dedupe(discs):
         col.discrepancy(sig, what, slim(case))
+        col.label("discrepancy:%s:%s:%s" % (labels[0] if labels else "?", sig[1], sig[3]))
     col.sample({"files": sorted(case["files"]), "lang": case.get("lang"), "enable_p2": bool(case.get("enable_p2")),
                 "stats": st, "first_file_head": next(iter(case["files"].values()))[:300]})
 
